@@ -165,6 +165,12 @@ class CoqDoc(object):
         return "".join("let %s := %s in\n" % (n, b) for n, b in self.lets) + body
 
 
+def parse_text(text):
+    """the document as the SP's parser and the tool see it: parsed from OCTETS (text is sent UTF-8 encoded), so an
+    XML encoding declaration is honoured - parsing the str would ignore it"""
+    return ET.fromstring(text.encode("utf-8") if isinstance(text, str) else text)
+
+
 def path_of(root, elem):
     """child-index path of `elem` below `root`"""
     if elem is root:
@@ -356,6 +362,38 @@ def extra_mutations(orig_xml, level, other_xml=None):
             f2 = copy.deepcopy(f)
             f2.find(ASSERTION).append(copy.deepcopy(_sigchild(oac)))
             emit("nest-assertion:original-first-inside-forged:copy-last:%s" % idkind, f2)
+    # --- encoding-declaration differential: the document declares ISO-8859-1 but is sent as UTF-8 octets; every
+    #     reader that parses the octets (the SAML parser, the tool) sees the forged element's ID 'é' as 'Ã©', a reader
+    #     that parses the decoded TEXT (declaration ignored) sees 'é' - and takes the decoy F, whose literal ID is
+    #     'Ã©' and which carries a properly shaped signature of its own, for the element to inspect, while the tool,
+    #     started at the forged element, verifies the genuine original nested in front of the forged element's signature
+    if level in ("assertion", "both") and oa is not None and _sigchild(oa) is not None:
+        for decoy_shape in ("own-signature", "no-signature"):
+            oc = fresh()
+            S = oc.find(ASSERTION)
+            E = copy.deepcopy(S)
+            E.set("ID", "\u00e9")
+            E.find("{%s}Subject" % SAML).find("{%s}NameID" % SAML).text = "admin"
+            for av in E.iter("{%s}AttributeValue" % SAML):
+                av.text = "Mallory"
+            sigE = _sigchild(E)
+            E.remove(sigE)
+            adv = ET.Element("{%s}Advice" % SAML)
+            adv.append(copy.deepcopy(S))
+            F = copy.deepcopy(S)
+            F.set("ID", "\u00c3\u00a9")
+            if decoy_shape == "own-signature":
+                F.find(SIG).find(SIGNEDINFO).find(REFERENCE).set("URI", "#\u00c3\u00a9")
+            else:
+                F.remove(_sigchild(F))
+            adv.append(F)
+            E.insert(1, adv)
+            E.insert(2, sigE)
+            i = list(oc).index(S)
+            oc.remove(S)
+            oc.insert(i, E)
+            out.append(("encoding-declaration:latin1-declared-utf8-sent:decoy-%s" % decoy_shape,
+                        '<?xml version="1.0" encoding="ISO-8859-1"?>' + ET.tostring(oc, encoding="unicode")))
     # --- both signatures required: one message suffices under a first/last-wins tool, two are needed under a refusing one
     if level == "both":
         for second in ("same-message", "other-message"):
